@@ -8,21 +8,34 @@ import numpy as np
 
 from typhon import constants
 
-from checks.c09_util import (PER_VALUE, U, atmosphere, call, evaluate,
-                              failures)
+from checks.c09_util import (DTYPES, PER_VALUE, PYTHON, U, U32, atmosphere,
+                              call, evaluate, failures, representable, unit)
 
 TT = constants.triple_point_water
 TB = TT - 23.0        # lower branch temperature (exact, see lattice)
 SAT = ("e_eq_ice_mk", "e_eq_water_mk", "e_eq_mixed_mk")
 
-# Rounding noise of a saturation pressure exp(sum of terms): at most 20
-# roundings of terms of magnitude <= 6763.22/100 in the exponent, each an
-# absolute error of the exponent and hence a relative error of the result.
-NOISE = 20 * 68 * U
-# Lattice neighbours are either <= 4 ulp apart (relations hold up to NOISE) or
-# >= COARSE kelvin apart (the true change, > 1e-6 relative, dwarfs NOISE).
+
+def precision(dtype):
+    """Unit round-off numpy evaluates a saturation pressure with: float32
+    for float32 and (log, exp, tanh of) int16 arguments."""
+    return U32 if dtype in ("float32", "int16") else U
+
+
+def noise(dtype):
+    """Rounding noise of a saturation pressure exp(sum of terms): at most 20
+    roundings of terms of magnitude <= 6763.22/100 in the exponent, each an
+    absolute error of the exponent and hence a relative error of the
+    result."""
+    return 20 * 68 * precision(dtype)
+
+
+# Lattice neighbours are either <= 4 ulp apart (relations hold up to noise) or
+# >= COARSE kelvin apart (the true change, > 1e-6 relative, dwarfs the noise).
 COARSE = 1e-4
-# Generous Lipschitz bound for ln e_s (true value <= 0.13 / K above 250 K).
+# Bounds for d ln e_s / dT of both fits on 100..400 K (true values: 0.036 / K
+# at 400 K; <= 0.13 / K above 250 K).
+MIN_SLOPE = 0.03
 LIPSCHITZ = 0.2
 
 
@@ -57,8 +70,17 @@ REGIMES = {"all": lambda t: True, "ice": lambda t: t < TB,
            "blend": lambda t: TB <= t <= TT, "liquid": lambda t: t > TT}
 
 
-def sublattice(per_kelvin, regime):
-    return [t for t in lattice(per_kelvin) if REGIMES[regime](t)]
+def sublattice(per_kelvin, regime, dtype="float64", step=None):
+    """The lattice temperatures of the regime that the dtype holds exactly;
+    step: only the multiples of step kelvin and what is less than 2 K from a
+    branch temperature."""
+    pts = [t for t in representable(lattice(per_kelvin), dtype)
+           if not step or t % step == 0 or min(abs(t - TT), abs(t - TB)) < 2]
+    for a, b in zip(pts, pts[1:]):
+        # no pair may sit in the don't-care band of the noise
+        assert b - a <= 4 * math.ulp(b) or \
+            (b - a) * MIN_SLOPE > 4 * noise(dtype), (a, b)
+    return [t for t in pts if REGIMES[regime](t)]
 
 
 def regimes(container):
@@ -68,38 +90,57 @@ def regimes(container):
     return ("all",) if container in PER_VALUE else tuple(REGIMES)
 
 
-def lattice_violations(container, per_kelvin):
+def lattice_violations(container, per_kelvin, dtype="float64", step=None):
     """The relations within the array(s) of each regime; every element of a
-    part must get the value it got within the whole lattice (to 2 NOISE:
-    numpy may evaluate exp differently for other array lengths). Yields
+    part must get the value it got within the whole lattice, and the value
+    the same temperature gets as a float64 array element (to 2 noise: numpy
+    may evaluate exp differently for other array lengths and dtypes). Yields
     (regime, temps, violation)."""
     whole = {}
+    float64 = {}
+    if dtype != "float64":
+        temps = sublattice(per_kelvin, "all", dtype, step)
+        for name in SAT:
+            float64.update(zip(((name, t) for t in temps), evaluate(
+                getattr(atmosphere(), name), "1d", temps, real=True)))
     for regime in regimes(container):
-        temps = sublattice(per_kelvin, regime)
-        out = {name: evaluate(getattr(atmosphere(), name), container, temps)
-               for name in SAT}
-        for bad in relations(container, temps, out):
+        temps = sublattice(per_kelvin, regime, dtype, step)
+        out = sat_outcomes(container, temps, dtype)
+        for bad in relations(container, temps, out, dtype):
             yield regime, temps, bad
         for name in SAT:
             for i, (t, e) in enumerate(zip(temps, out[name])):
-                ref = whole.setdefault((name, t), e)
-                if isinstance(e, float) and isinstance(ref, float) and \
-                        not abs(e - ref) <= 2 * NOISE * ref:
-                    yield regime, temps, (
-                        "sat/%s/depends-on-other-elements" % name, [i], ref,
-                        e, "array of the %s temperatures only" % regime)
+                for ref, what, msg in (
+                        (whole.setdefault((name, t), e),
+                         "other-elements", "array of the %s temperatures "
+                         "only" % regime),
+                        (float64.get((name, t)), "representation",
+                         "%s versus float64 array" % dtype)):
+                    if isinstance(e, float) and isinstance(ref, float) and \
+                            not abs(e - ref) <= 2 * noise(dtype) * ref:
+                        yield regime, temps, (
+                            "sat/%s/depends-on-%s" % (name, what), [i], ref,
+                            e, msg)
 
 
-def sat_violations(container, temps):
+def sat_outcomes(container, temps, dtype):
+    return {name: evaluate(getattr(atmosphere(), name), container, temps,
+                           dtype, real=True) for name in SAT}
+
+
+def sat_violations(container, temps, dtype="float64"):
     """All relations of the statement on the sorted temperatures `temps`,
     evaluated in one container. case = indices into temps (None: the whole
     array call failed)."""
-    return relations(container, temps, {
-        name: evaluate(getattr(atmosphere(), name), container, temps)
-        for name in SAT})
+    return relations(container, temps, sat_outcomes(container, temps, dtype),
+                     dtype)
 
 
-def relations(container, temps, out):
+def relations(container, temps, out, dtype):
+    eps = noise(dtype)
+    # mixed = ice | liquid: the same formula on the same number - to 4 U in
+    # float64; where numpy picks float32 for some steps only, to the noise
+    same = 4 * U if precision(dtype) == U else 2 * eps
     for name in SAT:
         for i, key, obs in failures(name, out[name]):
             yield (key, [i] if container in PER_VALUE else None,
@@ -120,7 +161,7 @@ def relations(container, temps, out):
                     if not e[i] > e[i - 1]:
                         yield ("sat/%s/not-increasing" % name, [i - 1, i],
                                "> %r" % e[i - 1], e[i], "")
-                elif not e[i] >= e[i - 1] * (1 - 2 * NOISE):
+                elif not e[i] >= e[i - 1] * (1 - 2 * eps):
                     yield ("sat/%s/decreasing-across-ulp" % name,
                            [i - 1, i], ">= %r - noise" % e[i - 1], e[i], "")
         if ok(ice[i], liq[i]):
@@ -133,20 +174,20 @@ def relations(container, temps, out):
         if not ok(ice[i], liq[i], mix[i]):
             continue
         if t < TB:
-            if not abs(mix[i] - ice[i]) <= 4 * U * ice[i]:
+            if not abs(mix[i] - ice[i]) <= same * ice[i]:
                 yield ("sat/mixed/not-ice-below-lower-branch", [i], ice[i],
                        mix[i], "")
         elif t > TT:
-            if not abs(mix[i] - liq[i]) <= 4 * U * liq[i]:
+            if not abs(mix[i] - liq[i]) <= same * liq[i]:
                 yield ("sat/mixed/not-liquid-above-triple-point", [i],
                        liq[i], mix[i], "")
         else:
             lo, hi = sorted((ice[i], liq[i]))
-            if not lo * (1 - 8 * U) <= mix[i] <= hi * (1 + 8 * U):
+            if not lo * (1 - 2 * same) <= mix[i] <= hi * (1 + 2 * same):
                 yield ("sat/mixed/outside-ice-liquid", [i], [lo, hi], mix[i],
                        "")
         if i and ok(mix[i - 1]) and in_blend(temps[i - 1]) and in_blend(t):
-            bound = (2 * NOISE + LIPSCHITZ * (t - temps[i - 1])) * mix[i]
+            bound = (2 * eps + LIPSCHITZ * (t - temps[i - 1])) * mix[i]
             if not abs(mix[i] - mix[i - 1]) <= bound:
                 yield ("sat/mixed/jump", [i - 1, i],
                        "%r +- %.3g" % (mix[i - 1], bound), mix[i], "")
@@ -161,6 +202,13 @@ REJECT = {
     "1-d with -5": np.array([-5.0, 300.0]),
     "2-d with 0": np.array([[300.0, 250.0], [0.0, 200.0]]),
     "1-d all 0": np.zeros(3),
+    "int64 0-d 0": np.array(0), "int16 scalar -1": np.int16(-1),
+    "float32 scalar 0": np.float32(0.0),
+    "int64 1-d with 0": np.array([300, 0, 250]),
+    "int32 1-d with -5": np.array([-5, 300], dtype=np.int32),
+    "int16 2-d with 0": np.array([[300, 250], [0, 200]], dtype=np.int16),
+    "float32 1-d with 0": np.array([300.0, 0.0, 250.0], dtype=np.float32),
+    "float32 1-d with -0.5": np.array([260.0, -0.5], dtype=np.float32),
 }
 
 
@@ -198,20 +246,54 @@ def saturation_functions():
     }
 
 
-def grids(container, *axes):
-    """The lattice axes as call arguments: scalars one point at a time, or
-    one broadcasting array call (axis j varies along dimension j, so the
+def representations(nargs):
+    """The dtypes of the arguments of one call: all float64; each other
+    dtype for one argument at a time and for all arguments together."""
+    yield ("float64",) * nargs
+    for dtype in DTYPES[1:]:
+        for j in range(nargs):
+            yield tuple(dtype if k == j else "float64" for k in range(nargs))
+        yield (dtype,) * nargs
+
+
+def represented(container, axes, form="keyword"):
+    """(axes, dtypes) of every representation of the lattice: each axis keeps
+    the values its dtype holds exactly; an axis without any (pressures as
+    int16) stays float64, and what then coincides with another combination
+    is dropped. Scalars differ from float64 only all together; how e_eq is
+    handed over is varied for float64 only."""
+    for dtypes in representations(len(axes)):
+        if len(set(dtypes)) > 1 and container == "float" or \
+                dtypes[0] != "float64" and form != "keyword":
+            continue
+        kept = [representable(a, d) for a, d in zip(axes, dtypes)]
+        actual = tuple(d if k else "float64" for k, d in zip(kept, dtypes))
+        if actual == dtypes or actual not in representations(len(axes)):
+            yield [k or a for k, a in zip(kept, axes)], actual
+
+
+def keyed(key, dtypes):
+    """Violations that need another representation than float64 name it."""
+    other = sorted(set(dtypes) - {"float64"})
+    return key + "/" + other[0] if other else key
+
+
+def grids(container, axes, dtypes):
+    """The lattice axes as call arguments: scalars one point at a time
+    (Python numbers for float64 and int64, else numpy scalars), or one
+    broadcasting array call (axis j varies along dimension j, so the
     ravelled result is in itertools.product order). Yields (arguments,
     points)."""
     points = list(itertools.product(*axes))
     if container == "float":
+        scalar = [PYTHON.get(d, np.dtype(d).type) for d in dtypes]
         for point in points:
-            yield point, [point]
+            yield [s(v) for s, v in zip(scalar, point)], [point]
     else:
         n = len(axes)
-        yield [np.array(a, dtype=float).reshape(
+        yield [np.array(a, dtype=float).astype(d).reshape(
             [-1 if k == j else 1 for k in range(n)])
-            for j, a in enumerate(axes)], points
+            for j, (a, d) in enumerate(zip(axes, dtypes))], points
 
 
 # -- RH <-> VMR --------------------------------------------------------------
@@ -223,9 +305,10 @@ RH_FUNCS = {"rh->vmr->rh": ("relative_humidity2vmr", "vmr2relative_humidity"),
             "vmr->rh->vmr": ("vmr2relative_humidity", "relative_humidity2vmr")}
 
 
-def rh_violations(ename, container, direction, form, values, ps, ts):
+def rh_violations(ename, container, direction, form, values, ps, ts,
+                  dtypes=("float64",) * 3):
     """Round trip of every value at every (p, T): two roundings per
-    conversion, so the value must come back to 8 U relative."""
+    conversion, so the value must come back to 8 unit round-offs relative."""
     atm = atmosphere()
     first, second = (getattr(atm, n) for n in RH_FUNCS[direction])
     args, kwargs = E_EQ_FORMS[form](saturation_functions()[ename])
@@ -233,23 +316,23 @@ def rh_violations(ename, container, direction, form, values, ps, ts):
     def round_trip(v, p, t):
         return second(first(v, p, t, *args, **kwargs), p, t, *args, **kwargs)
 
-    for arrays, points in grids(container, values, ps, ts):
+    for arrays, points in grids(container, (values, ps, ts), dtypes):
         back = call(round_trip, *arrays)
         for i, key, obs in failures(direction, back):
-            yield (key, rh_case(ename, container, direction, form, points[i]),
-                   "a number", obs, "")
+            yield (key, rh_case(ename, container, direction, form, points[i],
+                                dtypes), "a number", obs, "")
         for point, got in zip(points, back):
             if isinstance(got, float) and \
-                    not abs(got - point[0]) <= 8 * U * point[0]:
-                yield ("rh/not-inverse/" + direction,
-                       rh_case(ename, container, direction, form, point),
-                       point[0], got, "")
+                    not abs(got - point[0]) <= 8 * unit(*dtypes) * point[0]:
+                yield (keyed("rh/not-inverse/" + direction, dtypes),
+                       rh_case(ename, container, direction, form, point,
+                               dtypes), point[0], got, "")
 
 
-def rh_case(ename, container, direction, form, point):
+def rh_case(ename, container, direction, form, point, dtypes):
     return dict(part="rh", e_eq=ename, container=container,
                 direction=direction, form=form, value=point[0], p=point[1],
-                T=point[2])
+                T=point[2], dtypes=list(dtypes))
 
 
 # -- moist lapse rate --------------------------------------------------------
@@ -261,9 +344,11 @@ def lapse_domain(ename, ps, ts):
     (cp Rv T^2) is the group that scales the moist correction."""
     e_eq = saturation_functions()[ename] or atmosphere().e_eq_water_mk
     r = constants.molar_mass_water / constants.molar_mass_dry_air
+    # a failure is reported by the 'sat' part
+    e_s = dict(zip(ts, call(e_eq, np.array(ts, dtype=float))))
     out = {}
     for p, t in itertools.product(ps, ts):
-        e = call(e_eq, t)[0]      # a failure is reported by the 'sat' part
+        e = e_s[t]
         if not isinstance(e, float):
             continue
         x = e / p
@@ -275,33 +360,35 @@ def lapse_domain(ename, ps, ts):
     return out
 
 
-def lapse_violations(ename, container, ps, ts):
+def lapse_violations(ename, container, ps, ts, dtypes=("float64",) * 2):
     """0 < lapse <= g/cp, and 1 - lapse / (g/cp) <= 2 b w_s (Bohren &
     Albrecht give (b - a) w / (1 + b w) <= b w; the factor 2 leaves room for
     other formulations)."""
+    u = unit(*dtypes)
     atm = atmosphere()
     e_eq = saturation_functions()[ename]
     dry = constants.earth_standard_gravity / \
         constants.isobaric_mass_heat_capacity
     domain = lapse_domain(ename, ps, ts)
-    for args, points in grids(container, ps, ts):
+    for args, points in grids(container, (ps, ts), dtypes):
         got = call(lambda p, t: atm.moist_lapse_rate(p, t, e_eq), *args)
         for i, key, obs in failures("moist_lapse_rate", got):
-            yield (key, lapse_case(ename, container, points[i]), "a number",
-                   obs, "")
+            yield (key, lapse_case(ename, container, points[i], dtypes),
+                   "a number", obs, "")
         for point, g in zip(points, got):
             if point not in domain or not isinstance(g, float):
                 continue
             w, b = domain[point]
-            case = lapse_case(ename, container, point)
-            if not 0 < g <= dry * (1 + 4 * U):
-                yield ("lapse/outside-0-dry", case, "(0, %r]" % dry, g, "")
-            elif not 1 - g / dry <= 2 * b * w + 8 * U:
-                yield ("lapse/not-approaching-dry", case,
+            case = lapse_case(ename, container, point, dtypes)
+            if not 0 < g <= dry * (1 + 4 * u):
+                yield (keyed("lapse/outside-0-dry", dtypes), case,
+                       "(0, %r]" % dry, g, "")
+            elif not 1 - g / dry <= 2 * b * w + 8 * u:
+                yield (keyed("lapse/not-approaching-dry", dtypes), case,
                        "1 - lapse/dry <= %.3g" % (2 * b * w), 1 - g / dry,
                        "w_s = %.3g" % w)
 
 
-def lapse_case(ename, container, point):
+def lapse_case(ename, container, point, dtypes):
     return dict(part="lapse", e_eq=ename, container=container, p=point[0],
-                T=point[1])
+                T=point[1], dtypes=list(dtypes))
